@@ -205,6 +205,11 @@ def generate(rng, family, package_dir, events=2000, vary=True, shipped_n=False):
         for section in find_section_with(sections, "sampling_interval"):
             sections[section]["sampling_interval"] = repr(rng.choice([1.7, 3.3]))
             set_out.setdefault(section, {})["sampling_interval"] = sections[section]["sampling_interval"]
+    if vary and rng.random() < 0.2:
+        # an estimator tuned too low: its bounds are then exceeded now and then (the application only warns)
+        for section, options in sections.items():
+            if section.endswith("Estimator") and "prefactor" in options:
+                set_out.setdefault(section, {})["prefactor"] = repr(round(float(options["prefactor"]) * 0.6, 6))
     if vary:
         # the even power of the displaced (bond) potentials is free; every shipped configuration uses 2
         for section, options in sections.items():
